@@ -1267,6 +1267,12 @@ fn check_try_notices(env: &Env, tid: Tid, n0: usize, what: &str) {
 				format!("self-wait|{what}"),
 				format!("{what}: the thread waits for L{lid}, which it holds itself"),
 			),
+			Notice::HoldAndSpin { tid: t, lid, failed, held, .. } if *t == tid => env.finding(
+				"C09",
+				tid,
+				format!("hold-and-spin|{what}"),
+				format!("{what}: after the try on L{failed} failed the retrying acquisition went on to L{lid} while still holding {held:?} (it polls instead of letting go)"),
+			),
 			Notice::HoldAndWait { tid: t, lid, held, .. } if *t == tid => env.finding(
 				"C09",
 				tid,
